@@ -8,7 +8,7 @@ from .lin import CSet, le, ge, eq, lin
 
 
 class E4:
-    def __init__(self, facts, havoc=None, keep_instates=False, soft_widen=False, probes=(), rule_c06a=False, force_ret=None, opaque=(), assume_offsets_in_packet=False, budget_s=None):
+    def __init__(self, facts, havoc=None, keep_instates=False, soft_widen=False, probes=(), rule_c06a=False, force_ret=None, opaque=(), assume_offsets_in_packet=False, budget_s=None, track_loads=False):
         """facts: analysis.facts.Facts"""
         OBLIGATIONS.clear()
         UNMODELLED.clear()
@@ -27,6 +27,7 @@ class E4:
         self.an.assume_offsets_in_packet = assume_offsets_in_packet
         self.an.wrap_obligations = (facts.config == 'release')
         self.an.deadline = (time.time() + budget_s) if budget_s else None
+        self.an.track_loads = track_loads
         self.times = {}
 
     def summarize(self, key):
